@@ -163,7 +163,18 @@ def short_text(idx: List[int]) -> bool:
     except Exception:
         return fin(True)
     toks = _tokens(text)
-    return fin(_first_closed(toks) and _names_known(toks))
+    # only the first item counts: text after its closing bracket is not read by generate() and the property does not speak
+    # about it (same rule as in C15)
+    depth, end = 0, len(toks)
+    for i, t in enumerate(toks):
+        if t == "<":
+            depth += 1
+        elif t == ">":
+            depth -= 1
+            if depth <= 0:
+                end = i + 1
+                break
+    return fin(_first_closed(toks) and _names_known(toks[:end]))
 
 
 def truncated(tree: int, base: int, cut: int, bad: bool) -> bool:
